@@ -850,6 +850,19 @@ func errDiscRule(p *Program, r *Reporter, anchors ...*ssa.Function) {
 					if e != nil {
 						ok, why = errorReturnedWhenNonNil(e)
 					}
+					// (flag, err) pair: the callee reports an error only together with a true flag, and the
+					// caller returns the error on the flag's true side
+					if !ok && e != nil && c.Referrers() != nil {
+						if k := calleeErrOnlyWithTrueFlag(callee); k >= 0 {
+							for _, ref := range *c.Referrers() {
+								if ex, isEx := ref.(*ssa.Extract); isEx && ex.Index == k {
+									if ok2, why2 := errorReturnedWhenNonNilF(e, ex); ok2 {
+										ok, why = true, why2+" (error only together with a true flag; the flag's false side is exempt)"
+									}
+								}
+							}
+						}
+					}
 					if !ok {
 						if reason, isEx := errDiscExceptions[shortFn(fn)+"|"+shortFn(callee)]; isEx {
 							r.Exception("E5-ERRDISC", shortFn(fn), construct, p.pos(instrPos(c)), "reviewed exception: "+reason)
